@@ -1247,6 +1247,12 @@ impl FinishedSession {
             .as_ref()
             .map(crate::rollback::verif_delta::priors_of)
     }
+
+    /// The value changes `Session::finish` put into the value transaction, in the order they were
+    /// pushed (`None` = delete).
+    pub fn verif_value_changes(&self) -> Vec<([u8; 32], Option<Vec<u8>>)> {
+        self.value_transaction.verif_batch()
+    }
 }
 
 #[cfg(nomt_verif)]
